@@ -1613,6 +1613,15 @@ def main(argv=None):
             'a deliberate refusal (KeyError for a dangling reference, ValueError, TypeError, RedundantPackWarning) '
             'must leave the storage unchanged; any other exception is reported as C07:pack-crashed',
             'referencesf is run on the real pickles to feed the model; the oracle uses the generator\'s own lists',
+            'oracle-only (no Lean model behind them): blob files (run_blob), a commit arriving during a '
+            'MappingStorage pack (run_cc), the second storage packed in the same process, history() / undoLog() / '
+            'iterator(start, stop) / loadSerial answers, Data.fs.old presence; model-compared: FileStorage, '
+            'MappingStorage, MVCCMappingStorage, HexStorage(FileStorage|MappingStorage) (record lengths as stored, '
+            'i.e. hex-encoded), DemoStorage() and DemoStorage(base, changes=FileStorage) (the changes storage\'s own '
+            'history, gc off), every construction path (constructor options, ZODB.config, DB.pack), injected pack '
+            'failures (FileStorage: nothing changes; MappingStorage sweep failure = the model\'s gc-off pack)',
+            'history(oid) is compared on tids only: its size field is the stored length (0 for a back pointer) and '
+            'changes when a pack writes an undo record\'s data in full',
         ])
 
 
